@@ -89,7 +89,9 @@ URL_IN_TEXT_RE = re.compile(
 URL_IN_HTML = r"""<a[^>]*\shref=(?:"([^"]*)"|'([^']*)'|([^\s>]*))[^>]*>"""
 URL_IN_HTML_BINARY = URL_IN_HTML.encode()
 
-URL_IN_HTML_RE = re.compile(URL_IN_HTML, re.I)
+# NOTE: re.A so that the str patterns behave like their binary counterparts
+# (else \s, \b & re.I are unicode-aware for str only)
+URL_IN_HTML_RE = re.compile(URL_IN_HTML, re.I | re.A)
 URL_IN_HTML_BINARY_RE = re.compile(URL_IN_HTML_BINARY, re.I)
 
 QUERY_VALUE_IN_URL_TEMPLATE = r"(?:^|[?&])(%s)=([^&]+)"
@@ -105,5 +107,5 @@ HOSTNAME_TEMPLATE = r"(?:^|\.)%s$"
 SCRIPT_TAG = r"<script\b[^<]*(?:(?!<\/script>)<[^<]*)*<\/script>"
 SCRIPT_TAG_BINARY = SCRIPT_TAG.encode()
 
-SCRIPT_TAG_RE = re.compile(SCRIPT_TAG, re.I)
+SCRIPT_TAG_RE = re.compile(SCRIPT_TAG, re.I | re.A)
 SCRIPT_TAG_BINARY_RE = re.compile(SCRIPT_TAG_BINARY, re.I)
